@@ -1,6 +1,6 @@
 //! C10 — oneway is propagated from the interface and oneway methods must return void.
 
-use super::c07::{category_types, observed_header, support};
+use super::c07::{category_types, observed_header};
 use super::semacommon::*;
 use super::CheckResult;
 use crate::model::doc::*;
@@ -71,7 +71,7 @@ fn make_case(forms: &[usize], iface_oneway: bool, variant: usize) -> Case {
         z.code = Some("4294967296".into());
         item.members.push(Member::Method(z));
     }
-    let mut files = support();
+    let mut files = super::c07::support_rot(variant == 4);
     files.push(ProjFile::from_doc_styled("obs", observed_header(item), forms.iter().sum::<usize>() % 3 == 1));
     let oi = files.len() - 1;
     let exp = expect_observed(&files, oi);
